@@ -8,6 +8,8 @@
 //   witness_atv / witness_vtb -> hex of an ATV/VTB whose tx public key is {1,2,3} with the matching derived address
 //   consts          -> "NAME=value ..." as compiled from the headers
 // One line is flushed per case, so the last id printed identifies a crashing input.
+#include <csignal>
+#include <unistd.h>
 #include <veriblock/pop/blockchain/alt_chain_params.hpp>
 #include <veriblock/pop/blockchain/btc_chain_params.hpp>
 #include <veriblock/pop/blockchain/vbk_chain_params.hpp>
@@ -932,14 +934,29 @@ static std::string handle(const std::string& id, const std::string& op, const st
   return "UNKNOWN-TYPE";
 }
 
+// per-case watchdog: every input is at most a few tens of kilobytes, so a case that runs longer than
+// VERIF_CASE_TIMEOUT seconds (default 90, generous for -O0 + ASan on a loaded machine) is not "bounded by the
+// declared size limits". The process exits with 124; the runner takes the first case without a result line as
+// the culprit and continues behind it.
+static void on_case_timeout(int) {
+  static const char msg[] = "VERIF-CASE-TIMEOUT: the current case exceeded its time bound\n";
+  ssize_t w = write(2, msg, sizeof(msg) - 1);
+  (void)w;
+  _exit(124);
+}
+
 int main() {
   std::ios::sync_with_stdio(false);
+  unsigned case_timeout = 90;
+  if (const char* e = getenv("VERIF_CASE_TIMEOUT")) case_timeout = (unsigned)atoi(e);
+  signal(SIGALRM, on_case_timeout);
   std::string line;
   while (std::getline(std::cin, line)) {
     auto t = vh::split(line);
     if (t.size() < 2) continue;
     std::vector<std::string> args(t.begin() + 2, t.end());
     std::string r;
+    alarm(case_timeout);
     try {
       r = handle(t[0], t[1], args);
     } catch (const std::exception& e) {
@@ -947,6 +964,7 @@ int main() {
     } catch (...) {
       r = "THROW unknown";
     }
+    alarm(0);
     std::cout << t[0] << " " << r << std::endl;  // flush per case
   }
   return 0;
